@@ -262,6 +262,30 @@ func (s *server) ModifyColumnFamilies(ctx context.Context, req *btapb.ModifyColu
 	defer tbl.mu.Unlock()
 	cfs := tbl.def.ColumnFamilies
 
+	// Validate the whole request against the evolving set of families first, so that the
+	// modifications are applied entirely or not at all.
+	present := make(map[string]bool, len(cfs))
+	for id := range cfs {
+		present[id] = true
+	}
+	for _, mod := range req.Modifications {
+		if mod.GetCreate() != nil {
+			if present[mod.Id] {
+				return nil, status.Errorf(codes.AlreadyExists, "family %q already exists", mod.Id)
+			}
+			present[mod.Id] = true
+		} else if mod.GetDrop() {
+			if !present[mod.Id] {
+				return nil, fmt.Errorf("can't delete unknown family %q", mod.Id)
+			}
+			delete(present, mod.Id)
+		} else if mod.GetUpdate() != nil {
+			if !present[mod.Id] {
+				return nil, fmt.Errorf("no such family %q", mod.Id)
+			}
+		}
+	}
+
 	for _, mod := range req.Modifications {
 		if create := mod.GetCreate(); create != nil {
 			if _, ok := cfs[mod.Id]; ok {
